@@ -321,8 +321,18 @@ def h_sign(ctx, n, alter, twin=None):
                 o = cls()
                 o.signature, o.message, o.combined = signature, message, combined
                 return o
-        saved = (SG.VerifyKey, SG.exc, SG.crypto_sign, CI.ed25519Private, SG.SignedMessage)
-        SG.VerifyKey, SG.exc, SG.crypto_sign, SG.SignedMessage = VK, types.SimpleNamespace(BadSignatureError=BadSig), crypto_sign, SM
+        def crypto_sign_open(signed, pk_):
+            # libsodium: the first 64 bytes are the signature of the rest
+            if len(signed) < 64 or not (C.SymBytes.lift(signed[:64]) == F(pk_, signed[64:])):
+                raise BadSig('Signature was forged or corrupt')
+            return signed[64:]
+        MISSING = object()
+        names = dict(VerifyKey=VK, exc=types.SimpleNamespace(BadSignatureError=BadSig), crypto_sign=crypto_sign, SignedMessage=SM,
+                     crypto_sign_open=crypto_sign_open)
+        saved = ({k: getattr(SG, k, MISSING) for k in names}, CI.ed25519Private, MISSING)
+        for k, v in names.items():
+            if k != 'crypto_sign_open' or hasattr(SG, k):        # (only what the module actually uses is replaced)
+                setattr(SG, k, v)
         CI.ed25519Private = lambda seed=None, *a, **k: SKey(seed if seed is not None else a[0])
         key = SKey(sk_seed)
     else:
@@ -368,7 +378,13 @@ def h_sign(ctx, n, alter, twin=None):
             ctx.require(SG.verify_sign(pk2, m, sig) is False, 'fails under any other key')
     finally:
         if saved:
-            SG.VerifyKey, SG.exc, SG.crypto_sign, CI.ed25519Private, SG.SignedMessage = saved
+            for k, v in saved[0].items():
+                if v is saved[2]:
+                    if hasattr(SG, k) and k != 'crypto_sign_open':
+                        delattr(SG, k)
+                else:
+                    setattr(SG, k, v)
+            CI.ed25519Private = saved[1]
 
 
 def h_contract(ctx):
